@@ -94,6 +94,12 @@ fn check_all_dc(acc: &mut Acc, v: &Envelope, ids: &[Id], signed: u32, dontcare: 
     // key lists and thresholds
     if dontcare != 0 { return }
     let maxlen = if full_lists { 3 } else { 2 };
+    // an empty key list never satisfies a threshold of one or more
+    for t in [1usize, 2] {
+        acc.inc("threshold_checks");
+        let none: Vec<&dyn Verifier> = vec![];
+        if let Ok(true) = verifies_bool(catch(|| v.has_signatures_from_threshold(&none, Some(t)))) { acc.viol(format!("C09|threshold|{class}|empty-key-list-accepted"), format!("an empty key list satisfies threshold {t}"), cid(), json!({"envelope": hex::encode(v.to_cbor_data())})) }
+    }
     for len in 1..=maxlen {
         for idx in lists(ids.len(), len) {
             let keys: Vec<&dyn Verifier> = idx.iter().map(|&i| &ids[i].pk as &dyn Verifier).collect();
